@@ -47,6 +47,9 @@ pub fn fresh_bool(name: &str) -> bool {
 pub fn param(name: &str) -> i64 {
 	ST.with(|s| s.borrow().params.get(name).and_then(|v| v.parse().ok()).unwrap_or_else(|| panic!("missing parameter {}", name)))
 }
+pub fn param_or(name: &str, default: i64) -> i64 {
+	ST.with(|s| s.borrow().params.get(name).and_then(|v| v.parse().ok()).unwrap_or(default))
+}
 pub fn param_str(name: &str) -> String {
 	ST.with(|s| s.borrow().params.get(name).cloned().unwrap_or_else(|| panic!("missing parameter {}", name)))
 }
